@@ -386,6 +386,11 @@ func (h *RealtimeHandler) HandleEntityUpdatePose(ctx context.Context, msg hwebso
 		return nil
 	}
 
+	if update.Pose == nil {
+		// An update without a pose has nothing to apply.
+		return nil
+	}
+
 	entity.SetPose(models.Pose{
 		PX: update.Pose.Px,
 		PY: update.Pose.Py,
